@@ -166,18 +166,38 @@ func c19DirFromInfo(r *Run) {
 		return
 	}
 	r.SawFn(fnName(fn))
-	info := fn.Params[0]
+	// the values that are "the FileInfo being converted": dirFromInfo's parameter and, inside helpers it calls, the
+	// parameter it is passed as
+	infoVals := map[ssa.Value]bool{fn.Params[0]: true}
 	// accessor(v): the set of os.FileInfo methods v depends on
 	var deps func(v ssa.Value, depth int, out map[string]bool)
 	deps = func(v ssa.Value, depth int, out map[string]bool) {
-		if depth > 8 || v == nil {
+		if depth > 10 || v == nil {
 			return
 		}
 		switch x := v.(type) {
 		case *ssa.Call:
-			if x.Call.IsInvoke() && x.Call.Value == ssa.Value(info) {
+			if x.Call.IsInvoke() && infoVals[x.Call.Value] {
 				out[x.Call.Method.Name()] = true
 				return
+			}
+			// a helper of the package that is handed the FileInfo: what its result depends on
+			if g := staticCallee(&x.Call); g != nil && g.Blocks != nil && p.InModule(g) && strings.HasPrefix(fnName(g), "ufs.") && fnName(g) != "ufs.atime" {
+				bound := false
+				for i, a := range x.Call.Args {
+					if infoVals[a] && i < len(g.Params) {
+						infoVals[g.Params[i]] = true
+						bound = true
+					}
+				}
+				if bound {
+					for _, ret := range returnsOf(g) {
+						for _, rv := range ret.Results {
+							deps(rv, depth+1, out)
+						}
+					}
+					return
+				}
 			}
 			if x.Call.IsInvoke() {
 				deps(x.Call.Value, depth+1, out)
@@ -224,56 +244,80 @@ func c19DirFromInfo(r *Run) {
 		return false
 	}
 	nDirBits := 0
-	eachInstr(fn, func(in ssa.Instruction) {
-		st, ok := in.(*ssa.Store)
-		if !ok {
-			return
-		}
-		// path of the field within the local Dir
-		var names []string
-		addr := st.Addr
-		for {
-			fa, ok := addr.(*ssa.FieldAddr)
+	var scanStores func(sfn *ssa.Function, prefix string, depth int)
+	scanStores = func(sfn *ssa.Function, prefix string, depth int) {
+		eachInstr(sfn, func(in ssa.Instruction) {
+			st, ok := in.(*ssa.Store)
 			if !ok {
-				break
+				return
 			}
-			names = append([]string{fieldName(fa.X.Type(), fa.Field)}, names...)
-			addr = fa.X
-		}
-		if len(names) == 0 {
-			return
-		}
-		path := strings.Join(names, ".")
-		// OR-in of the directory bits
-		if bo, ok := st.Val.(*ssa.BinOp); ok && bo.Op == token.OR {
-			if c, ok := constInt(bo.Y); ok {
-				switch {
-				case path == "Mode" && uint32(c) == uint32(dmdir):
-					nDirBits++
-					r.Check(isDirEdge(st), "dir-map", "dirFromInfo: DMDIR set exactly for directories", st.Pos(), "the directory mode bit does not follow info.Mode().IsDir()")
-					return
-				case path == "Qid.Type" && uint8(c) == uint8(qtdir):
-					nDirBits++
-					r.Check(isDirEdge(st), "dir-map", "dirFromInfo: QTDIR set exactly for directories", st.Pos(), "the qid type does not follow info.Mode().IsDir()")
-					return
+			// path of the field within the local Dir
+			var names []string
+			addr := st.Addr
+			for {
+				fa, ok := addr.(*ssa.FieldAddr)
+				if !ok {
+					break
+				}
+				names = append([]string{fieldName(fa.X.Type(), fa.Field)}, names...)
+				addr = fa.X
+			}
+			if len(names) == 0 {
+				return
+			}
+			path := prefix + strings.Join(names, ".")
+			// a whole sub-record filled by a helper (dir.Qid = qidFromInfo(info)): the helper's own field stores count
+			isPrefix := false
+			for k := range want {
+				if strings.HasPrefix(k, path+".") {
+					isPrefix = true
 				}
 			}
-		}
-		w, tracked := want[path]
-		if !tracked {
-			return
-		}
-		d := map[string]bool{}
-		deps(st.Val, 0, d)
-		got := []string{}
-		for k := range d {
-			got = append(got, k)
-		}
-		sort.Strings(got)
-		seen[path] = true
-		r.Check(len(d) == 1 && d[w], "dir-map", fmt.Sprintf("dirFromInfo: Dir.%s ← info.%s()", path, w), st.Pos(),
-			fmt.Sprintf("Dir.%s is computed from info.{%s} instead of info.%s()", path, strings.Join(got, ","), w))
-	})
+			if c, ok := st.Val.(*ssa.Call); ok && depth < 2 && isPrefix {
+				if g := staticCallee(&c.Call); g != nil && g.Blocks != nil && p.InModule(g) {
+					if _, isStruct := c.Type().Underlying().(*types.Struct); isStruct {
+						for i, a := range c.Call.Args {
+							if infoVals[a] && i < len(g.Params) {
+								infoVals[g.Params[i]] = true
+							}
+						}
+						scanStores(g, path+".", depth+1)
+						return
+					}
+				}
+			}
+			// OR-in of the directory bits
+			if bo, ok := st.Val.(*ssa.BinOp); ok && bo.Op == token.OR {
+				if c, ok := constInt(bo.Y); ok {
+					switch {
+					case path == "Mode" && uint32(c) == uint32(dmdir):
+						nDirBits++
+						r.Check(isDirEdge(st), "dir-map", "dirFromInfo: DMDIR set exactly for directories", st.Pos(), "the directory mode bit does not follow info.Mode().IsDir()")
+						return
+					case path == "Qid.Type" && uint8(c) == uint8(qtdir):
+						nDirBits++
+						r.Check(isDirEdge(st), "dir-map", "dirFromInfo: QTDIR set exactly for directories", st.Pos(), "the qid type does not follow info.Mode().IsDir()")
+						return
+					}
+				}
+			}
+			w, tracked := want[path]
+			if !tracked {
+				return
+			}
+			d := map[string]bool{}
+			deps(st.Val, 0, d)
+			got := []string{}
+			for k := range d {
+				got = append(got, k)
+			}
+			sort.Strings(got)
+			seen[path] = true
+			r.Check(len(d) == 1 && d[w], "dir-map", fmt.Sprintf("dirFromInfo: Dir.%s ← info.%s()", path, w), st.Pos(),
+				fmt.Sprintf("Dir.%s is computed from info.{%s} instead of info.%s()", path, strings.Join(got, ","), w))
+		})
+	}
+	scanStores(fn, "", 0)
 	for k := range want {
 		if !seen[k] {
 			r.Bad("dir-map", "dirFromInfo: Dir."+k+" is filled", fn.Pos(), "the field is left at its zero value")
@@ -435,43 +479,76 @@ func c19Create(r *Run) {
 		r.Undecided("create-open", "FileRef.Create/Open/Remove", token.NoPos, "anchors not found")
 		return
 	}
-	perm, mode := cr.Params[3], cr.Params[4]
-	perm0777 := func(v ssa.Value) bool {
-		b, ok := unconv(v).(*ssa.BinOp)
-		if !ok || b.Op != token.AND || b.X != ssa.Value(perm) {
-			return false
-		}
-		m, ok := constInt(b.Y)
-		return ok && m == 0777
-	}
+	crPerm, crMode := cr.Params[3], cr.Params[4]
+	nOF := 0
+	ocreate, _ := pkgConstInt(p, "ufs", "os", "O_CREATE")
 	dmdir, _ := p9pConst(p, "DMDIR")
-	for _, c := range findCalls(cr, "os.Mkdir") {
-		okEdge := false
-		for _, cd := range condsAtInstr(c) {
-			nc := normCond(cd)
-			if b, ok := nc.V.(*ssa.BinOp); ok && b.Op == token.NEQ && nc.Truth {
-				if a, ok := b.X.(*ssa.BinOp); ok && a.Op == token.AND && a.X == ssa.Value(perm) {
-					if m, ok := constInt(a.Y); ok && uint32(m) == uint32(dmdir) {
-						okEdge = true
+	var createCalls []*ssa.Call // os.OpenFile calls that create the file, wherever they sit
+	helperOf := map[*ssa.Function]bool{}
+	for _, cfn := range p.withHelpers(cr, 1) {
+		// inside a helper, perm and mode are the parameters Create binds to its own perm and mode
+		var perm, mode ssa.Value = crPerm, crMode
+		if cfn != cr {
+			perm, mode = nil, nil
+			for i, prm := range cfn.Params {
+				allPerm, allMode, n := true, true, 0
+				for _, cs := range findCalls(cr, fnName(cfn)) {
+					n++
+					if i >= len(cs.Call.Args) || cs.Call.Args[i] != ssa.Value(crPerm) {
+						allPerm = false
+					}
+					if i >= len(cs.Call.Args) || cs.Call.Args[i] != ssa.Value(crMode) {
+						allMode = false
+					}
+				}
+				if n > 0 && allPerm {
+					perm = prm
+				}
+				if n > 0 && allMode {
+					mode = prm
+				}
+			}
+			if len(findCalls(cfn, "os.OpenFile"))+len(findCalls(cfn, "os.Mkdir")) == 0 {
+				continue
+			}
+			helperOf[cfn] = true
+		}
+		cr := cfn
+		perm0777 := func(v ssa.Value) bool {
+			b, ok := unconv(v).(*ssa.BinOp)
+			if !ok || b.Op != token.AND || b.X != ssa.Value(perm) {
+				return false
+			}
+			m, ok := constInt(b.Y)
+			return ok && m == 0777
+		}
+		for _, c := range findCalls(cr, "os.Mkdir") {
+			okEdge := false
+			for _, cd := range condsAtInstr(c) {
+				nc := normCond(cd)
+				if b, ok := nc.V.(*ssa.BinOp); ok && b.Op == token.NEQ && nc.Truth {
+					if a, ok := b.X.(*ssa.BinOp); ok && a.Op == token.AND && a.X == ssa.Value(perm) {
+						if m, ok := constInt(a.Y); ok && uint32(m) == uint32(dmdir) {
+							okEdge = true
+						}
 					}
 				}
 			}
+			r.Check(okEdge && perm0777(c.Call.Args[1]), "create-open", "Create: mkdir(perm&0777) exactly for DMDIR", c.Pos(), "directories are not created by mkdir with the requested permission bits")
 		}
-		r.Check(okEdge && perm0777(c.Call.Args[1]), "create-open", "Create: mkdir(perm&0777) exactly for DMDIR", c.Pos(), "directories are not created by mkdir with the requested permission bits")
-	}
-	ocreate, _ := pkgConstInt(p, "ufs", "os", "O_CREATE")
-	nOF := 0
-	for _, c := range findCalls(cr, "os.OpenFile") {
-		nOF++
-		okFlags := false
-		if b, ok := c.Call.Args[1].(*ssa.BinOp); ok && b.Op == token.OR {
-			if oc, ok := b.X.(*ssa.Call); ok && calleeName(&oc.Call) == "ufs.oflags" && oc.Call.Args[0] == ssa.Value(mode) {
-				if m, ok := constInt(b.Y); ok && m == ocreate {
-					okFlags = true
+		for _, c := range findCalls(cr, "os.OpenFile") {
+			nOF++
+			createCalls = append(createCalls, c)
+			okFlags := false
+			if b, ok := c.Call.Args[1].(*ssa.BinOp); ok && b.Op == token.OR {
+				if oc, ok := b.X.(*ssa.Call); ok && calleeName(&oc.Call) == "ufs.oflags" && oc.Call.Args[0] == ssa.Value(mode) {
+					if m, ok := constInt(b.Y); ok && m == ocreate {
+						okFlags = true
+					}
 				}
 			}
+			r.Check(okFlags && perm0777(c.Call.Args[2]), "create-open", "Create: OpenFile(path, oflags(mode)|O_CREATE, perm&0777)", c.Pos(), "files are not created with the requested open mode / permission bits")
 		}
-		r.Check(okFlags && perm0777(c.Call.Args[2]), "create-open", "Create: OpenFile(path, oflags(mode)|O_CREATE, perm&0777)", c.Pos(), "files are not created with the requested open mode / permission bits")
 	}
 	r.Floor("create-open", nOF, 1, "OpenFile in Create")
 	for _, c := range findCalls(op, "os.OpenFile") {
@@ -503,6 +580,18 @@ func c19Create(r *Run) {
 					if ex, ok := alt.(*ssa.Extract); ok {
 						if c, ok := ex.Tuple.(*ssa.Call); ok && calleeName(&c.Call) == "os.OpenFile" {
 							okFile = true
+						}
+						// … or the result of the helper that creates the node and returns OpenFile's own result
+						if c, ok := ex.Tuple.(*ssa.Call); ok && ex.Index == 0 {
+							if g := staticCallee(&c.Call); g != nil && helperOf[g] {
+								for _, ret := range returnsOf(g) {
+									for _, cc := range createCalls {
+										if len(ret.Results) > 0 && ret.Results[0] == resultN(cc, 0) {
+											okFile = true
+										}
+									}
+								}
+							}
 						}
 					}
 				}
